@@ -35,7 +35,12 @@ func m(kv ...any) map[string]any {
 	return out
 }
 
-func l(v ...any) []any { return v }
+func l(v ...any) []any {
+	if v == nil {
+		return []any{} // an empty JSON array, not null
+	}
+	return v
+}
 
 var strSchema = m("type", "string")
 
